@@ -4,6 +4,7 @@ import AikenVerif.Drivers.Shrink
 import AikenVerif.Drivers.Flat
 import AikenVerif.Drivers.DeBruijn
 import AikenVerif.Drivers.Schema
+import AikenVerif.Drivers.Mini
 /-!
 Native driver: line protocol.  Each request line is
   `<sub-command> <case-id> <fields…>`
@@ -28,6 +29,7 @@ def dispatch (st : DriverState) (sub : String) (args : List String) : DriverStat
   | "db" => (st, Drivers.DeBruijn.handle args)
   | "schema" | "schemaraw" | "validate" | "vraw" | "inhabits" | "encode" | "tag" | "apply" | "applyp" =>
     (st, Drivers.Schema.handle sub args)
+  | "mini" => (st, Drivers.Mini.handle args)
   | _ => (st, "unknown-subcommand")
 
 partial def loop (h : IO.FS.Stream) (out : IO.FS.Stream) (st : DriverState) : IO Unit := do
